@@ -71,7 +71,7 @@ def jsonable(x: Any, depth: int = 0) -> Any:
     if isinstance(x, dict):
         return {str(k): jsonable(v, depth + 1) for k, v in list(x.items())[:60]}
     if isinstance(x, (list, tuple, set, frozenset)):
-        return [jsonable(v, depth + 1) for v in list(x)[:60]]
+        return [jsonable(v, depth + 1) for v in list(x)[:400]]
     return repr(x)[:300]
 
 
